@@ -128,7 +128,11 @@ def gen_pq(rng, n_ops, dup=False):
         elif r < 0.91:
             lines.append(f"pq {qi} " + rng.choice(["refresh", "sort", "sorteditems", "items"]))
         elif r < 0.95:
-            lines.append(f"pq {qi} copy {1 - qi}")
+            if rng.random() < 0.4:
+                lines.append(f"pq {qi} copysorted {1 - qi}")
+                lines.append(f"pq {1 - qi} sort")
+            else:
+                lines.append(f"pq {qi} copy {1 - qi}")
             shadow[1 - qi] = sh.copy()
         elif r < 0.97:
             lines.append(f"pq {qi} clear")
@@ -227,6 +231,8 @@ def to_model(ln):
         return f"{t[0]} {t[1]} len"
     if len(t) > 2 and t[2] in ("ordopen", "ordclose"):
         return f"{t[0]} {t[1]} len"
+    if len(t) > 2 and t[2] == "copysorted":
+        return f"{t[0]} {t[1]} copy {t[3]}"
     return ln
 
 
@@ -344,9 +350,9 @@ def oracle_pq(lines, outs, tags):
                 q.items.clear()
                 emptied.add(qi)
             exp = "ok"
-        elif op == "copy":
+        elif op in ("copy", "copysorted"):
             qs[int(a[0])] = q.copy()
-            tags.add("copy")
+            tags.add("copy" if op == "copy" else "sorted-snapshot")
             exp = "ok"
         elif op in ("ordopen", "ordclose"):
             tags.add("overlapping-ordered-iterations")
@@ -513,7 +519,7 @@ def shrink(lines, only_lt=False):
     return head + core.ddmin(body, fails)
 
 
-OPCLASS = {"ordopen": "overlapping-ordered", "ordclose": None, "iteropen": "iterate-partially", "iterclose": None, "append": "append", "appendpri": "append", "add": "add", "extend": "add",
+OPCLASS = {"copysorted": "copy", "ordopen": "overlapping-ordered", "ordclose": None, "iteropen": "iterate-partially", "iterclose": None, "append": "append", "appendpri": "append", "add": "add", "extend": "add",
            "drain": None, "popleft": "pop", "iter": None, "pop": "pop", "popitem": "pop",
            "peek": None, "peekitem": None, "len": None, "bool": None, "in": None, "items": None,
            "sorteditems": None, "layout": None, "seq": None, "new": None, "gp": None,
